@@ -89,6 +89,8 @@ _join_ids = itertools.count(2 * 10 ** 6)
 
 def join_doc(sep, lst):
     """sep.join(list-valued term)"""
+    if lst == ('const', '') or lst == ('tuple', ()):
+        return []                 # joining the characters of '' (or nothing at all) gives ''
     if lst[0] == 'list':
         out = []
         for i, el in enumerate(lst[1]):
